@@ -3,7 +3,7 @@ Proof/YamlKernels — each vector kernel of Model/YamlSimd equals its scalar cou
 (Spec/YamlKernels), by the generic chunked-scan lemmas of Proof/YamlChunked and the lane lemmas.
 -/
 import SuccinctlyVerif.Proof.YamlChunked
-namespace SV.Yaml
+namespace SV.YamlK
 
 theorem findQuoteOrEscape_eq (lvl : Level) (buf : List Byte) (s e : Nat) :
     findQuoteOrEscape lvl buf s e = findIn isQuoteOrEsc buf s e := by
@@ -469,4 +469,4 @@ theorem avx2Enabled_only_lowers (detected : Bool) (env : Option (List Char)) :
   cases detected <;> simp [clampBelowAvx2]
 
 
-end SV.Yaml
+end SV.YamlK
